@@ -531,6 +531,10 @@ class Interp:
 
     def ev_cast(self, e, env):
         v = self.ev(e["e"], env)
+        if hasattr(self.dom, "cast"):
+            r = self.dom.cast(self, v, e.get("ty"))
+            if r is not None:
+                return r
         if isinstance(v, Enum) and not v.args:
             d = self.dom.discriminant(self, v.path)
             if d is None:
@@ -670,7 +674,36 @@ class Interp:
         return StructVal(path, fields)
 
     def ev_loop(self, e, env):
-        raise Beyond("loop")
+        """`loop` / `while` with a bound (opt-in: dom.finite_loops and dom.loop_limit); mutable state lives in `$mut`"""
+        limit = getattr(self.dom, "loop_limit", 0)
+        if not getattr(self.dom, "finite_loops", False) or not limit:
+            raise Beyond("loop")
+        own, inner_labels = set(), set()
+
+        def scan(x, depth):
+            if isinstance(x, dict):
+                if x.get("k") == "break" and "to" in x and depth == 0:
+                    own.add(x["to"])
+                if x.get("k") == "block" and "lbl" in x:
+                    inner_labels.add(x["lbl"])
+                d2 = depth + 1 if x.get("k") == "loop" or (x.get("k") == "match" and str(x.get("src", "")).startswith("ForLoop")) else depth
+                for v in x.values():
+                    scan(v, d2)
+            elif isinstance(x, list):
+                for v in x:
+                    scan(v, depth)
+        scan(e["b"], 0)
+        own -= inner_labels
+        for _ in range(limit):
+            try:
+                self.ev(e["b"], env)
+            except Continue:
+                continue
+            except Break as b:
+                if b.to is None or b.to in own:
+                    return b.v
+                raise
+        raise Beyond("loop bound %d exceeded" % limit)
 
     def ev_assign(self, e, env):
         lhs = e["l"]
